@@ -274,10 +274,10 @@ func TestC18(t *testing.T) {
 			wantEffCost := new(big.Int).Add(wantEffFee, tx.Value())
 			for name, pair := range map[string][2]*big.Int{
 				"Fee": {td.Fee(), wantFee}, "Cost": {td.Cost(), wantCost},
-				"EffectiveGasPrice": {td.EffectiveGasPrice(baseFee), wantEffPrice},
-				"EffectiveFee":      {td.EffectiveFee(baseFee), wantEffFee},
-				"EffectiveCost":     {td.EffectiveCost(baseFee), wantEffCost},
-				"msg.GetFee":        {m.GetFee(), wantFee},
+				"EffectiveGasPrice":   {td.EffectiveGasPrice(baseFee), wantEffPrice},
+				"EffectiveFee":        {td.EffectiveFee(baseFee), wantEffFee},
+				"EffectiveCost":       {td.EffectiveCost(baseFee), wantEffCost},
+				"msg.GetFee":          {m.GetFee(), wantFee},
 				"msg.GetEffectiveFee": {m.GetEffectiveFee(baseFee), wantEffFee},
 			} {
 				if pair[0] == nil || pair[0].Cmp(pair[1]) != 0 {
